@@ -58,10 +58,37 @@ fn pairs(pa: Plan, ua: u8, pb: Plan, ub: u8, alt: bool, tier: Tier) -> Box<dyn C
     })
 }
 
+/// Scripted deep sets (full windows, full load, tombstones), then a depth-bounded search with the full alphabet.
+fn seeded(plan: Plan, depth: u32, tier: Tier) -> Box<dyn Config> {
+    let w = super::width();
+    let (gw, fill): (u8, u8) = if w == 16 { (16, 28) } else { (8, 14) };
+    let mut c = SetCfg::new(plan, fill + 2);
+    c.max_buckets = if w == 16 { 64 } else { 32 };
+    let label = format!("{}-seeded-d{}", c.label(), depth);
+    let mut l = lim(tier);
+    l.max_depth = Some(depth);
+    let mut b = BfsConfig::new(label, SetHarness::new(c), l);
+    let ins = |n: u8| (0..n).map(SetOp::Insert).collect::<Vec<_>>();
+    let mut seeds = vec![ins(gw + 1), ins(fill)];
+    for removed in [1u8, gw / 2, fill / 2, fill - 8] {
+        let mut h = ins(fill);
+        h.extend((0..removed).map(SetOp::Remove));
+        seeds.push(h);
+    }
+    let mut h = ins(fill);
+    h.extend((0..fill).filter(|i| i % 2 == 1).map(SetOp::Remove));
+    seeds.push(h);
+    b.seeds = seeds;
+    Box::new(b)
+}
+
 pub fn configs(tier: Tier) -> Vec<Box<dyn Config>> {
     let sse2 = super::width() == 16;
     let q = tier == Tier::Quick;
     let mut v = Vec::new();
+    for plan in [Plan::Zero, Plan::Tail] {
+        v.push(seeded(plan, if q { 1 } else { 2 }, tier));
+    }
     if sse2 {
         v.push(single(Plan::Zero, if q { 6 } else { 12 }, tier));
         v.push(single(Plan::Seq, if q { 4 } else { 6 }, tier));
